@@ -71,6 +71,7 @@ TYPES_THOROUGH = [
 ]
 TYPE_VALUES = dict(TYPES + TYPES_THOROUGH)
 TYPE_VALUES["Option<String>"] = ["null", '"s"']
+TYPE_VALUES["Option<Option<String>>"] = ["null", '"s"']
 TYPE_VALUES["Reply"] = ['{"id":0,"payload":"","gas_used":0,"result":{"ok":{"events":[],"data":null,"msg_responses":[]}}}',
                         '{"id":1,"payload":"aGk=","gas_used":5,"result":{"error":"boom"}}']
 
